@@ -34,7 +34,7 @@ fn main() {
                 continue;
             }
         };
-        let ex = qf::explore(&model, true, u64::MAX, n_threads());
+        let ex = qf::explore(&model, true, 2_000_000, n_threads());
         closed &= ex.stats.closed;
         let failing_inserts = ex.stats.outcome_kinds.get(&2).copied().unwrap_or(0);
         fi += failing_inserts;
